@@ -49,7 +49,28 @@ def violation(times, types, cuts, ops=1):
     return None
 
 
+def passthrough_violation():
+    """a throughput supplied by the runner is reported verbatim (value, times, type, unit '<ops unit>/s'), one value per sample, in order"""
+    from esrally import metrics
+    from esrally.driver import driver
+
+    vals = [0.0, 1.0, 123.456789, 1e-9, 99999.99999, 7.5]
+    samples = [driver.Sample(0, 100.0 + k, 10.0 + k, 3.0, "task-a", metrics.SampleType.Normal if k >= 2 else metrics.SampleType.Warmup, None, 0.01, 0.01, 0.01, v, 5, "docs" if k % 2 else "pages", 0.1, None)
+               for k, v in enumerate(vals)]
+    got = driver.ThroughputCalculator().map_task_throughput(samples)
+    if len(got) != len(samples):
+        return f"{len(samples)} samples with a runner-supplied throughput gave {len(got)} values"
+    for k, (s, g) in enumerate(zip(samples, got)):
+        want = (s.absolute_time, s.relative_time, s.sample_type, s.throughput, f"{s.total_ops_unit}/s")
+        if tuple(g) != want:
+            return f"sample {k} with runner-supplied throughput {s.throughput!r} {s.total_ops_unit}: reported {tuple(g)!r}, expected {want!r}"
+    return None
+
+
 def main(rec):
+    if rec.get("target", "").endswith("map_task_throughput"):
+        v = passthrough_violation()
+        done(bool(v), v or "runner-supplied throughput is passed through unchanged on the probe samples")
     cands = [([0.2, 0.4, 0.5, 0.6, 0.7, 1.5], [1] * 6, [1, 2, 3, 4, 5])]
     rnd = random.Random(5)
     base_times = [0.3, 0.6, 0.8, 0.9, 1.2, 1.7, 2.05, 2.4, 3.3]
